@@ -657,6 +657,8 @@ def r_coll():
         m.resource(ns + "." + res, [(res, (key_name, key_type))], value, all_methods(value),
                    doc="collection keyed by " + key_name + " without query params")
         # <res>Params: every method with query params; create/batch_create/partial_update return the entity
+        if res not in ("byLong", "byString", "byTyperef", "byEnum", "byFixed"):
+            continue
         m.resource(ns + "." + res + "Params", [(res + "Params", (key_name, key_type))], value,
                    all_methods(value, params, return_entity=True),
                    doc="collection keyed by " + key_name + " with query params and return-entity")
@@ -825,7 +827,9 @@ def r_find_act():
         out = []
         for name, ret in returns:
             out.append(action(prefix + name, on_entity=on_entity, ret=ret, doc="no params, returns " + name))
-            out.append(action(prefix + name + "WithParams", on_entity=on_entity, params=action_params, ret=ret))
+            # the full parameter list only on a few actions, two parameters on the others
+            ps = action_params if name in ("Nothing", "Record", "Nested") else action_params[:2]
+            out.append(action(prefix + name + "WithParams", on_entity=on_entity, params=ps, ret=ret))
         return out
 
     m.resource(ns + ".docs", [("docs", ("docId", INT64))], value,
